@@ -648,7 +648,7 @@ def reader_cases(ctx):
             docs = [("valid", s) for s in seeds[:2]] + [("empty", b"")]
             docs += wides if ("dedupe" in oname or "batch" in oname or "hash" in oname or ctx.tier == "thorough") else wides[:2]
             if oname.endswith("-empty"):
-                docs = docs[:1] + wides[:1]        # an empty separator may hang: keep the cost of a confirmed hang small
+                docs = docs[:2] + wides[:1]        # an empty separator may hang: keep the cost of a confirmed hang small
             for _ in range(0 if oname.endswith("-empty") else nmut):
                 kind, m = mutate(rng, rng.choice(seeds + [wides[0][1]]), FMT_SEP.get(fmt))
                 docs.append((kind, m))
@@ -667,7 +667,7 @@ def reader_cases(ctx):
                 if ("fixed" in f or f == "--fw") and "pprint" not in fmts:
                     fmts = fmts + ["pprint"]
                 for fmt in fmts:
-                    cases.append({"fmt": fmt, "opt": "value:" + f, "kind": "flag-value", "args": FMT_FLAG[fmt] + [f, v, "--ojson", "cat"], "stdin": SEEDS[fmt][0]})
+                    cases.append({"fmt": fmt, "opt": "value:" + f, "kind": "flag-value", "args": FMT_FLAG[fmt] + [f, v, "--ojson", "cat"], "stdin": rng.choice(SEEDS[fmt][:2])})
     # the input-format spellings themselves
     for fmt, seeds in SEEDS.items():
         name = {"markdown": "markdown", "recutils": "recutils"}.get(fmt, fmt)
@@ -1254,7 +1254,7 @@ def json_layer_correspondence(ctx, exe):
             else:
                 continue
             ids = []
-        terms.append("([%s], [%s], %s)" % ("; ".join(t for t, _, _ in vs), "; ".join("%d" % x for x in ids), obs))
+        terms.append("([%s], [%s], %s)" % ("; ".join(t for t, _, _ in vs), "; ".join("%d%%N" % x for x in ids), obs))
         tmeta.append((docs[i], vs, cls))
         tally[cls] = tally.get(cls, 0) + 1
         ctx.count(("json-layer", docs[i])); ctx.dist("json-layer:" + cls)
@@ -1291,6 +1291,33 @@ DSL_NASTY = ["(", ")", "{", "}", "[", "]", ";", ",", "=", "==", "$*", "$", "@", 
              "percentile([1,2],101)", "percentiles([],[50])", "sort_by_key({})", "latin1_to_utf8(\"\\xff\")", "strlen(\"\\xff\")", "toupper(\"\\xff\")", "format(\"{}\")", "leafcount(1)",
              "json_decode(\"{\")", "json_decode(\"[[[[[[\")", "json_encode({}, 1, 2)", "asserting_null(1)", "splitnv(\"a,b\",\"\")", "ssub(\"\",\"\",\"\")", "index(\"\",\"\")", "strrev(\"\\xff\\xfe\")",
              "truncate(\"ab\",-1)", "format_values(1)", "exec(\"/nonexistent\",[])", "os_type()", "bitcount(-1)", "msub(1,2,0)", "roundm(7,0)", "1 .+ 9223372036854775807", "5 .* 4611686018427387904"]
+
+
+# boundary VALUES (beyond the kind representatives of the BIF matrix) for functions with size / count / time / format arguments
+DSL_NASTY += [
+    'format("{}:{}", 1)', 'format("{}", 1, 2, 3, 4, 5)', 'format("", [])', 'unformat("{}h{}m{}s", "5h6m")', 'unformat("{}h{}m{}s", "")', 'unformat("", "abc")', 'unformat("{}{}", "12")',
+    'unformatx("<>{};{}", "<>3;")', 'sec2date(-1e300)', 'sec2gmt(1e300, 9)', 'sec2gmt(9223372036854775807)', 'sec2gmtdate(-9223372036854775808)', 'sec2dhms(9223372036854775807)',
+    'sec2hms(-9223372036854775808)', 'fsec2hms(1e300)', 'fsec2dhms(-1e300)', 'fsec2hms(-0.0000001)', 'dhms2sec("1d2h3m4sxyz")', 'dhms2sec("")', 'dhms2sec("-")', 'dhms2fsec("1d-2h")',
+    'hms2sec("99999999999999999999:00:00")', 'hms2sec(":::")', 'hms2fsec("-00:00:00.")', 'gmt2sec("9999999999-01-01")', 'gmt2sec("")', 'gmt2sec("0000-00-00")', 'gmt2sec("1970-01-01T00:00:00Zjunk")',
+    'localtime2sec("2023-01-01 00:00:00", "Nowhere/Land")', 'strftime_local(0, "%Y", "")', 'strftime(0, "%")', 'strftime(0, "%%%")', 'strftime(1e300, "%Y-%m-%d %H:%M:%9S")',
+    'strfntime(9223372036854775807, "%Y-%m-%d %H:%M:%9S")', 'strfntime(-9223372036854775808, "%Y")', 'strfntime_local(1, "%Q%q%1%2", "Asia/Tokyo")', 'strptime("", "")',
+    'strptime("1970-01-01T00:00:00Z", "%Y-%m-%dT%H:%M:%SZ%Z%z%%")', 'strptime("12", "%")', 'strptime("12", "%%%")', 'strptime("99999999999999999999", "%s")', 'strptime("1.5e300", "%s")',
+    'strpntime("2023-01-01", "%Y-%m-%d%j%U%e")', 'substr("abc", -9223372036854775808, 9223372036854775807)', 'substr0("abc", 9223372036854775807, -9223372036854775808)',
+    '"abc"[9223372036854775807:9223372036854775807]', '[1,2,3][-9223372036854775808:9223372036854775807]', '[1,2,3][9223372036854775807]', '1 << 9223372036854775807', '1 >> -9223372036854775808',
+    '1 >>> -1', '-1 >>> 64', '1 << 63 << 1', 'leftpad("x", 100000, "ab")', 'rightpad(5, -9223372036854775808, "0")', 'truncate("ab", 9223372036854775807)', 'truncate("ab", -9223372036854775808)',
+    'fmtnum(3.1, "%08.9999lf")', 'fmtnum(1, "%d%d")', 'fmtnum(1, "%s")', 'fmtnum(1, "%*d")', 'fmtnum(1, "%9223372036854775807d")', 'fmtnum(-0.0, "%x")', 'fmtifnum("", "%")', 'hexfmt(-9223372036854775808)',
+    'splitnv("", "")', 'splitaxx("a", "")', 'splitax("abc", "")', 'splitnvx("a,b", ",,")', 'ssub("a", "", "b")', 'gsub("abc", "", "-")', 'regextract("abc", "(")', 'regextract_or_else("abc", "[", 1)',
+    '"abc" =~ "(?P<n"', 'sub("abc", "(a)(b)(c)", "\\9\\0\\1")', 'matchx("a","a")', 'strmatchx("abc", "(((((((((((a)))))))))))")', 'any([1], func(a) {return 1})', 'sort([3,1,2], "zzz")', 'sort({"a":1}, func(a,b,c,d){return "x"})',
+    'percentile({}, 50)', 'percentiles([], [])', 'percentiles([1,2], {})', 'percentile([1,2,3], "abc")', 'median(["a", 1, {}])', 'sort_by_key(1)', 'sort_by_value({"a":[1]})', 'kurtosis([1])', 'variance([])',
+    'minlen([])', 'distinct_count(1)', 'mode([])', 'antimode({})', 'null_count(1)', 'sum2(["a"])', 'meaneb([1])', 'skewness([1,1,1])', 'roundm(5, 0)', 'roundm(5.5, 0.0)', 'mexp(2, -1, 5)',
+    'mexp(2, 9223372036854775807, 9223372036854775807)', 'msub(5, 6, -7)', 'mmul(-9223372036854775808, -9223372036854775808, -1)', '2 ** 9223372036854775807', '0 ** -1', '-9223372036854775808 // -1',
+    '-9223372036854775808 % -1', '-9223372036854775808 .+ -1', '7.0 // 0', '7 % 0.0', 'int(1e300)', 'int("0xfffffffffffffffffff")', 'float("1e999")', 'bitcount(1e300)', 'exp(1e300) - exp(1e300)',
+    'invqnorm(2)', 'invqnorm(-1)', 'qnorm(1e308 * 10)', 'urandint(5, 1)', 'urandint(-9223372036854775808, 9223372036854775807)', 'urandrange(1, 1)', 'urandelement([])', 'gssub("", "", "")',
+    'latin1_to_utf8("\xff\xfe")', 'utf8_to_latin1("\xff\xfe\xc3")', 'gsub("\xff", "\xff", "\xfe")', 'format_values', 'strlen(leafcount)', 'json_decode("{\"a\":1}{")', 'json_decode("[1,2")', 'json_decode("\"\\ud800\"")',
+    'json_encode([1,{"a":[]}], 9223372036854775807)', 'json_encode({}, "x")', 'arrayify({"1":{"2":3}})', 'unflatten({"a..b.":1, ".":2, "":3}, ".")', 'unflatten({"a.b":1}, "")', 'flatten({"a":{}}, "")',
+    'get_values(1)', 'mapdiff()', 'mapsum()', 'mapexcept({"a":1}, [[1]])', 'mapselect({"a":1}, {})', 'haskey([1,2], -9223372036854775808)', 'concat()', 'index("abc", "")', 'contains("", "")', 'strfind',
+    'leafcount({})', 'depth([])', 'exec("", [])', 'system("")', 'os_type(1)', 'version(1)', 'hostname() . 1', 'asserting_int(1.5)', 'asserting_error(1)', 'is_nan(absent)', 'typeof(@*)', 'asserting_not_empty("")',
+]
 
 
 def load_dsl_corpus(ctx):
@@ -1343,6 +1370,24 @@ def mutate_dsl(rng, prog):
     return kind, " ".join(toks)
 
 
+def funct_arity_programs():
+    """function values held in local variables / parameters / collections, called with every argument count 0..3 (declared arity 0..3):
+    directly, through a UDF or subr with a funct parameter, after reassignment, from a map element, as an immediately applied literal"""
+    out = []
+    for ar in range(4):
+        ps = ",".join("abc"[:ar])
+        lit = "func(%s){return 1}" % ps
+        for nargs in range(4):
+            call = ",".join("123"[:nargs])
+            out += ["end{f=%s; print f(%s)}" % (lit, call), "f=%s; $y=f(%s)" % (lit, call),
+                    "func g(funct h) { return h(%s) } end{print g(%s)}" % (call, lit), "func g(h) { return h(%s) } $y = g(%s)" % (call, lit),
+                    "func k(%s) {return 2} end{f=k; print f(%s)}" % (ps, call), "func k(%s) {return 2} f=k; $y=f(%s)" % (ps, call),
+                    "subr s(funct h) { print h(%s) } end{var f=%s; call s(f)}" % (call, lit),
+                    "end{funct f=%s; f=func(a){return 2}; print f(%s)}" % (lit, call), "end{m={}; m[1]=%s; print m[1](%s)}" % (lit, call),
+                    "$y = (%s)(%s)" % (lit, call), "f=%s; $z=f(%s) . f(%s)" % (lit, call, call), "f=%s; $z=apply([1,2], f); $w=sort([2,1], f); $v=fold([1,2], f, 0)" % lit]
+    return out
+
+
 def dsl_part(ctx, exe):
     rng = ctx.rng
     corpus = load_dsl_corpus(ctx)
@@ -1356,6 +1401,8 @@ def dsl_part(ctx, exe):
         cases.append(("valid", p))
     for s in DSL_NASTY:
         cases.append(("nasty-expression", "end { print " + s + " }"))
+    for p in funct_arity_programs():
+        cases.append(("funct-value-call-arity", p))
     for _ in range(nmut):
         kind, p = mutate_dsl(rng, rng.choice(corpus))
         if rng.random() < 0.25:
@@ -1783,6 +1830,7 @@ PROBES = [
     (["head", "-n"], b"a=1\n"), (["bar", "--lo"], b"a=1\n"), (["cat", ""], b"a=1\n"), (["sec2gmt", ""], b"a=1\n"), (["sec2gmtdate", ""], b"a=1\n"), (["gap", "-n", "0"], b"a=1\na=2\n"),
     (["split", "-n", "0"], b"a=1\na=2\n"), (["split", "-m", "0"], b"a=1\na=2\n"), (["lecat", ""], b""), (["termcvt", ""], b""), ([""], b""), (["cat", "then", ""], b"a=1\n"),
     (["--ijson", "--ojsonl", "cat"], b"[" * 20000), (["-n", "put", 'end{s="[";for(i=0;i<15;i+=1){s=s.s} print json_decode(s)}'], b""),
+    (["--ipprint", "--fixed", "abc", "cat"], b"a b\n1 2\n"), (["--ipprint", "--fw", "", "cat"], b"a b\n1 2\n"), (["--mload", "a.mlr", "cat"], b"a=1\n"), (["--mload", ""], b""), (["--mfrom", "x"], b""),
     (["--ixtab", "--ips", "", "cat"], b"a 1\nb 2\n"), (["--ixtab", "--ifs", "", "cat"], b"a 1\n"),
     (["--ipprint", "--barred-input", "--implicit-csv-header", "cat"], b"no bars\n| 1 |\n"), (["--imd", "--implicit-csv-header", "cat"], b"x\n"),
     (["-n", "put", "end{print percentile([1,2,3,4,5], 9223372036854775807, {\"interpolate_linearly\":true}); print median([], {\"output_array_not_map\":true}); print leftpad(5,10,\"\"); "
